@@ -7,6 +7,7 @@ import (
 	"fmt"
 	"go/token"
 	"go/types"
+	"sort"
 	"strings"
 
 	"golang.org/x/tools/go/ssa"
@@ -1322,16 +1323,24 @@ func ruleTypeSwitchNoShadow(r *Run, p *Prog, rule string) {
 		pos token.Pos
 	}
 	byOperand := map[ssa.Value][]arm{}
-	eachInstr(f, func(b *ssa.BasicBlock, i int, in ssa.Instruction) {
-		if ta, ok := in.(*ssa.TypeAssert); ok && ta.CommaOk {
-			byOperand[ta.X] = append(byOperand[ta.X], arm{ta.AssertedType, ta.Pos()})
+	// the big value switch lives in appendFieldList today; a refactoring may move it into a helper
+	// (one function per kind of value): every large type switch of the package is judged
+	for _, g := range p.ModFns {
+		if pkgRel(g) != "" {
+			continue
 		}
-	})
+		eachInstr(g, func(b *ssa.BasicBlock, i int, in ssa.Instruction) {
+			if ta, ok := in.(*ssa.TypeAssert); ok && ta.CommaOk {
+				byOperand[ta.X] = append(byOperand[ta.X], arm{ta.AssertedType, ta.Pos()})
+			}
+		})
+	}
 	n, bad := 0, ""
 	for _, arms := range byOperand {
-		if len(arms) < 10 {
-			continue // not the big value switch
+		if len(arms) < 8 {
+			continue // not a big value switch
 		}
+		sort.Slice(arms, func(i, j int) bool { return arms[i].pos < arms[j].pos })
 		n++
 		// go/ssa emits the tests of a type switch in case order
 		for j, c := range arms {
